@@ -278,20 +278,38 @@ fn err_count(p: &std::path::Path, needle: &str) -> usize {
 }
 
 fn build_spec(fs: &[(Option<String>, u64)], rx: Option<&str>) -> LogSpecification {
-    let mut b = LogSpecBuilder::from_module_filters(&[]);
-    for (n, l) in fs {
-        match n {
-            None => {
-                b.default(lf(*l));
-            }
-            Some(n) => {
-                b.module(n, lf(*l));
+    // the same specification through the different public construction routes (chosen by the content,
+    // so that a case replays identically): builder from nothing / `LogSpecBuilder::new()` (which starts
+    // with default=off) / `From<LevelFilter>` / modules taken over from another specification;
+    // `build*` (borrowing) or `finalize*` (consuming)
+    let route = (fs.iter().map(|f| f.1).sum::<u64>() + fs.len() as u64) % 4;
+    let add = |b: &mut LogSpecBuilder, part: &[(Option<String>, u64)]| {
+        for (n, l) in part {
+            match n {
+                None => { b.default(lf(*l)); }
+                Some(n) => { b.module(n, lf(*l)); }
             }
         }
+    };
+    let has_default = fs.iter().any(|f| f.0.is_none());
+    if route == 2 && rx.is_none() && fs.len() == 1 && has_default {
+        return LogSpecification::from(lf(fs[0].1));
     }
-    match rx {
-        None => b.build(),
-        Some(r) => b.build_with_textfilter(Some(regex::Regex::new(r).unwrap())),
+    let mut b = if route == 1 && has_default { LogSpecBuilder::new() } else { LogSpecBuilder::from_module_filters(&[]) };
+    if route == 3 && fs.len() >= 2 {
+        let (first, rest) = fs.split_at(fs.len() / 2);
+        let mut b0 = LogSpecBuilder::from_module_filters(&[]);
+        add(&mut b0, first);
+        b.insert_modules_from(b0.build());
+        add(&mut b, rest);
+    } else {
+        add(&mut b, fs);
+    }
+    match (rx, route % 2 == 1) {
+        (None, false) => b.build(),
+        (None, true) => b.finalize(),
+        (Some(r), false) => b.build_with_textfilter(Some(regex::Regex::new(r).unwrap())),
+        (Some(r), true) => b.finalize_with_textfilter(regex::Regex::new(r).unwrap()),
     }
 }
 
